@@ -84,6 +84,13 @@ func (l *queryLog) searchMemory(
 			// Go on and try to match anyway.
 		}
 
+		// Don't return the records of the hosts and clients that have been
+		// ignored since they were recorded, the same way the records from
+		// the files aren't, see [queryLog.readNextEntry].
+		if l.isIgnored(e.QHost) || (e.client != nil && e.client.IgnoreQueryLog) {
+			return true
+		}
+
 		if params.match(e) {
 			entries = append(entries, e)
 		}
